@@ -9,13 +9,14 @@
 //                     s:<k>                          seekHistory(k)
 //                     t:<d>                          clock += d
 //     ops of 'e2e':   c:<port>:<value>               dispatch "<port>" "<ty>" value into rParam-style ports whose
-//                                                    reply("/undo_change") is recorded (ports: b=c-typed, i, j=i-typed)
+//                                                    reply("/undo_change") is recorded (ports: b=c-typed, i, j=i-typed,
+//                                                    x (rParamF) and a0 a1 a2 (rArrayF) f-typed: value = binary32 bits)
 //                     s:<k>, t:<d>                   as above; undo messages are dispatched back (recording disabled)
 //   output: one field per op, separated by '|':
 //           hist:  r -> "p=<pos> n=<size> h=<addrhex>/<ty>/<old>/<new>;..."   (whole retained history)
 //                  s -> "m=<addrhex>/<ty>/<val>;... p=<pos> n=<size>"         (messages in callback order, EMPTY = empty message)
 //                  t -> "-"
-//           e2e:   as above, each field followed by " a=<b>,<i>,<j>" (application state)
+//           e2e:   as above, each field followed by " a=<b>,<i>,<j>,<x>,<a0>,<a1>,<a2>" (application state; floats as bits)
 #include "hcommon.h"
 #include <ctime>
 #include <functional>
@@ -63,12 +64,15 @@ static std::string show_hist(const rtosc::UndoHistory &h)
 }
 
 // ---- end-to-end application: the repo's parameter macros ------------------
-struct Object { char b; int i; int j; Object() : b(0), i(0), j(0) {} };
+struct Object { char b; int i; int j; float x; float a[3];
+                Object() : b(0), i(0), j(0), x(0) { a[0] = a[1] = a[2] = 0; } };
 #define rObject Object
 static rtosc::Ports e2e_ports = {
     rParam(b, "b"),
     rParamI(i, "i"),
     rParamI(j, "j"),
+    rParamF(x, "x"),
+    rArrayF(a, 3, "a"),
 };
 #undef rObject
 
@@ -162,8 +166,15 @@ static void run_e2e(const std::vector<std::string> &ops)
         first = false;
         if(f[0] == "c" && f.size() == 3) {
             char buf[64];
-            const char *ty = f[1] == "b" ? "c" : "i";
-            rtosc_message(buf, sizeof(buf), f[1].c_str(), ty, atoi(f[2].c_str()));
+            if(f[1] == "x" || f[1][0] == 'a') {
+                // f-typed ports (rParamF, rArrayF): the value is a binary32 bit pattern
+                uint32_t u = (uint32_t)strtoul(f[2].c_str(), 0, 10);
+                float v; memcpy(&v, &u, 4);
+                rtosc_message(buf, sizeof(buf), f[1].c_str(), "f", v);
+            } else {
+                const char *ty = f[1] == "b" ? "c" : "i";
+                rtosc_message(buf, sizeof(buf), f[1].c_str(), ty, atoi(f[2].c_str()));
+            }
             memset(rt.locbuf, 0, sizeof(rt.locbuf));
             rt.locbuf[0] = '/';
             e2e_ports.dispatch(buf, rt);
@@ -177,6 +188,8 @@ static void run_e2e(const std::vector<std::string> &ops)
             o << "-";
         } else { o << "BADOP"; continue; }
         o << " a=" << (int)obj.b << "," << obj.i << "," << obj.j;
+        { uint32_t u[4]; memcpy(&u[0], &obj.x, 4); memcpy(&u[1], obj.a, 12);
+          o << "," << u[0] << "," << u[1] << "," << u[2] << "," << u[3]; }
     }
     puts(o.str().c_str());
 }
